@@ -199,8 +199,10 @@ def attach_alias_hits(ws, results):
                 results[h]["aliases"] = hits
 
 
-def classify(res):
-    """-> 'pass' | 'fail' | 'undecided' (+ reason)"""
+def classify(res, unmodelled=()):
+    """-> 'pass' | 'fail' | 'undecided' (+ reason).  `unmodelled`: path fragments of dependencies that a plan replaces by
+    contract stubs and a dummy object (e.g. a zeroed crossbeam Sender): a failed check located INSIDE such a dependency
+    means the code reached an operation of it that has no stub - the harness cannot decide that, it is not a verdict."""
     st = res.get("status")
     if st not in ("Success", "SUCCESS", "Successful") and not res.get("n_checks"):
         return "undecided", "no check results (CBMC timeout / memory cap / crash): " + str(res.get("reason", st))
@@ -215,6 +217,11 @@ def classify(res):
         if res.get("undetermined"):
             return "undecided", "undetermined checks"
         return "pass", ""
+    if real and unmodelled:
+        inside = [f for f in real if any(u in (f.get("location") or "") for u in unmodelled)]
+        if inside and len(inside) == len(real):
+            return "undecided", "the code reached an operation of a dependency that this plan replaces by contract stubs and for which no stub exists (%s): %s" % (
+                ", ".join(unmodelled), "; ".join(sorted(set((f.get("function") or "?") for f in inside)))[:300])
     if real:
         return "fail", "; ".join(sorted(set((f.get("description") or "?") for f in real)))[:600]
     if fails:
